@@ -7,6 +7,7 @@ From Frugal Require Import Bytes Wire Skip Values Desc Spec Encode Decode Checks
 From Frugal.gen Require Import Params.
 From Frugal.proofs Require Import GenOk BytesWire EncodeSpec SizeExact SkipPut DecodeSafe DecodeRefines RoundTrip Corollaries StateProofs BitsetProofs AllocProofs DescMapProofs ConcProofs BufferContract.
 From Frugal.props Require Import Examples.
+From Frugal.proofs Require Import MapOrder.
 Import ListNotations.
 
 (* bytes of the caller's array beyond the message (success) resp. all of them (failure) are untouched *)
@@ -30,3 +31,23 @@ Proof. exact encode_refines. Qed.
 Example C16_instance : exists arr', encode_object env_ex 1 (repeat 165%N 30) 20 (VT [VS 1; VB false [9]; VS 7] [])
   = EncOk 20 arr' /\ skipn 20 arr' = repeat 165%N 10.
 Proof. eexists. split; vm_compute; reflexivity. Qed.
+
+(* "the same bytes up to map-entry order": encoding the same value under another iteration order
+   of its maps (vperm, at any depth) gives a message of the same length and the same EncodedSize,
+   which parses to the same wire value up to the order of map entries (tvperm) *)
+Theorem C16_repeatable_up_to_order : forall env sid v v',
+  params_ok = true -> tables_ok = true -> env_ok env = true ->
+  has_type env (TStruct sid) v = true -> vperm v v' ->
+  exists w w', append_struct env sid v = put w /\ append_struct env sid v' = put w'
+               /\ tvperm w w' /\ encoded_size env sid v = encoded_size env sid v'.
+Proof. exact encode_order_immaterial. Qed.
+Print Assumptions C16_repeatable_up_to_order.
+
+Theorem C16_same_length : forall w w', tvperm w w' -> len (put w) = len (put w').
+Proof. exact tvperm_put_len. Qed.
+
+(* two orders of one value: different bytes, same length *)
+Example C16_two_orders :
+  vperm v_ex v_ex_swapped /\ append_struct env_ex 0 v_ex <> append_struct env_ex 0 v_ex_swapped
+  /\ len (append_struct env_ex 0 v_ex) = len (append_struct env_ex 0 v_ex_swapped).
+Proof. pose proof ex_two_orders as H. tauto. Qed.
